@@ -245,7 +245,8 @@ type c07Pred struct {
 	K string `json:"k"` // atom | and | or
 
 	// atom
-	OpKind string   `json:"operand,omitempty"` // alias | selected_agg | unselected_agg | unselected_agg_expr
+	Not    bool     `json:"not,omitempty"`     // the comparison is written NOT (...)
+	OpKind string   `json:"operand,omitempty"` // alias | selected_agg | unselected_agg | unselected_agg_expr | unselected_agg_over_expr
 	Alias  string   `json:"alias,omitempty"`
 	Shape  string   `json:"alias_item_shape,omitempty"`
 	Expr   *c07Expr `json:"expr,omitempty"`
@@ -276,6 +277,9 @@ func (p *c07Pred) sql(tight, upper bool) string {
 			lhs = p.Expr.sql(tight, upper)
 		}
 		s = lhs + " " + p.Cmp + " " + p.Lit
+		if p.Not {
+			s = "NOT (" + s + ")"
+		}
 		if p.CaseWrap {
 			s = "CASE WHEN " + s + " THEN 1 ELSE 0 END = 1"
 		}
@@ -328,6 +332,9 @@ func (p *c07Pred) evalB(rows []Row, borderline *bool) (tri int, sawNull bool) {
 			t = feq(a, b)
 		case "!=":
 			t = !feq(a, b)
+		}
+		if p.Not {
+			t = !t
 		}
 		if t {
 			return 1, false
@@ -446,7 +453,7 @@ var c07Shapes = []string{
 	"agg_op_lit", "agg_op_lit", "agg_op_lit",
 	"lit_op_agg", "lit_op_agg",
 	"agg_op_agg", "agg_op_agg",
-	"paren_agg_op_lit",
+	"paren_agg_op_lit", "paren_agg",
 	"paren_agg_op_agg_op_lit", "paren_agg_op_agg_op_lit",
 	"agg_op_lit_op_lit", "agg_op_lit_op_lit",
 	"lit_op_agg_op_lit",
@@ -474,6 +481,8 @@ func c07GenExpr(r *rand.Rand, shape string) *c07Expr {
 			return c07Bin(op, c07GenPlainAgg(r), c07GenDen(r))
 		}
 		return c07Bin(op, c07GenPlainAgg(r), c07GenPlainAgg(r))
+	case "paren_agg":
+		return c07Paren(c07GenPlainAgg(r))
 	case "paren_agg_op_lit":
 		return c07Bin(op, c07Paren(c07GenPlainAgg(r)), lit)
 	case "paren_agg_op_agg_op_lit":
@@ -726,6 +735,10 @@ func c07GenHaving(r *rand.Rand, c *c07Case, bs []*c07Batch) *c07Pred {
 			a.OpKind, a.Expr = "selected_agg", it.Expr
 		case kind < 9:
 			a.OpKind, a.Expr = "unselected_agg", c07GenPlainAgg(r)
+			if r.Intn(4) == 0 {
+				// an aggregate whose argument is evaluated per row (sum(t*3), avg(t + w))
+				a.OpKind, a.Expr = "unselected_agg_over_expr", c07GenInnerAgg(r)
+			}
 		default:
 			a.OpKind = "unselected_agg_expr"
 			if r.Intn(2) == 0 {
@@ -765,6 +778,7 @@ func c07GenHaving(r *rand.Rand, c *c07Case, bs []*c07Batch) *c07Pred {
 			}
 		}
 		a.Lit = c07FmtLit(th)
+		a.Not = r.Intn(9) == 0
 		return a
 	}
 	switch r.Intn(10) {
@@ -772,7 +786,7 @@ func c07GenHaving(r *rand.Rand, c *c07Case, bs []*c07Batch) *c07Pred {
 		a := atom()
 		// a HAVING that consists of one CASE comparison (CASE combined with AND/OR in HAVING is outside the
 		// statement's quantifier and is not generated)
-		a.CaseWrap = r.Intn(4) == 0
+		a.CaseWrap = r.Intn(4) == 0 && !a.Not
 		return a
 	case 4, 5:
 		if r.Intn(4) == 0 {
